@@ -16,6 +16,9 @@ def check(ctx, rep):
         return
     B.rule_sentinel(m, rep)
     B.rule_panic_propagates(m, rep)
+    # the wrapped sink runs under the sentinel only: the task is invoked from the worker loop and nowhere else (a helper
+    # draining the queue on a caller's thread would let a panic escape into the application, uncounted)
+    B.rule_task_only_in_run(m, rep, 'R1t')
     # "the sink keeps accepting metrics": whether emit accepts depends on the queue alone - every emit attempts the enqueue
     # and maps its outcome; no worker-health flag, slot counter or cached thread handle can refuse it after a panic
     from .common import KeepOnly
